@@ -267,6 +267,7 @@ func (vm *VM) convertPanic(msg any) error {
 type PanicError struct {
 	message    any
 	recovered  bool
+	aborted    bool
 	stackTrace []byte
 	next       *PanicError
 	path       string
